@@ -134,7 +134,7 @@ def rule_atom(ctx: Ctx) -> RuleResult:
         writers += 1
         st = ("a file is opened for writing / mutated only when nothing that can fail remains to be done: the text "
               "is complete, and no failing call follows before the process ends")
-        if kind != "open":
+        if kind != "open" and mode not in ("write_text", "write_bytes"):
             rr.ob(f.relpath, f.qualname, norm(call), st, VIOLATED,
                   f"file-system mutation `{mode}` on a CLI path besides the single output write", call.lineno)
             continue
@@ -144,7 +144,31 @@ def rule_atom(ctx: Ctx) -> RuleResult:
         problems = []
         body_ids: Set[int] = set()
         handle = None
-        if isinstance(par, ast.withitem):
+        # ENC-1: text written with an explicit encoding (otherwise the locale decides and a non-ASCII module fails
+        # with UnicodeEncodeError after the file was truncated)
+        is_text = (kind == "open" and mode is not None and "b" not in mode) or mode == "write_text"
+        if is_text:
+            has_enc = any(k.arg == "encoding" for k in call.keywords) or (
+                kind == "open" and len(call.args) >= (4 if norm(call.func) in ("open", "io.open") else 3)) or (
+                mode == "write_text" and len(call.args) >= 2)
+            if not has_enc:
+                problems.append("text is written without an explicit encoding: under a non-UTF-8 locale a non-ASCII "
+                                "module raises UnicodeEncodeError after the existing file was truncated")
+        if kind != "open":
+            cfg = ctx.cfg(f)
+            dom = cfg.dominators()
+            wn = cfg.node_containing(call, mod.parents)
+            for a in call.args[:1]:
+                if not isinstance(a, (ast.Name, ast.Constant)):
+                    problems.append(f"written value `{norm(a)[:50]}` is computed while the file is being replaced")
+                elif isinstance(a, ast.Name):
+                    for d in [d for d in walk_no_nested(f.node) if isinstance(d, (ast.Assign, ast.AugAssign, ast.AnnAssign))
+                              and any(isinstance(t, ast.Name) and t.id == a.id for t in
+                                      (d.targets if isinstance(d, ast.Assign) else [d.target]))]:
+                        if cfg.stmt_node(d) not in dom.get(wn, ()):
+                            problems.append(f"definition of `{a.id}` at line {d.lineno} does not dominate the write")
+            after_nodes = {b for b, l in cfg.succ[wn] if l != "exc"}
+        elif isinstance(par, ast.withitem):
             w = mod.parents.get(par)
             handle = norm(par.optional_vars) if par.optional_vars is not None else None
             for stmt in w.body:
